@@ -10,7 +10,7 @@ import (
 func init() {
 	props["C19"] = &propCheck{
 		lean: []string{"JSight.Props.C19"},
-		exes: []string{"jsight-model"},
+		exes: []string{"jsight-model", "jsight-build"},
 		run:  runC19,
 		rule: "tag names: all first-segment strings over {_,%,.,space,a,F,0,é-bytes,@,~} up to the length bound (all pairs compared through a hash of the produced name) and all 256 single bytes; documents: generated mixes of method-level, URL-level and absent Tags for HTTP and JSON-RPC interactions; a case is non-trivial when the segment contains a byte that is escaped or doubled / when the document has >= 2 interactions",
 		assume: []string{
@@ -87,4 +87,269 @@ func runC19(ctx *Ctx) {
 	c19Docs(ctx, r)
 }
 
-func c19Docs(ctx *Ctx, r *Rng) {}
+// tagDoc: a document about tags only, with the tagging the rule of C19 gives it.
+type tagDoc struct {
+	text     []byte
+	rejected bool                // some Tags directive names an undeclared tag
+	declared [][2]string         // name, title — in source order
+	inters   []string            // interaction ids in source order
+	tags     map[string][]string // interaction id -> tag names
+	proto    map[string]string
+}
+
+func genTagDoc(r *Rng) tagDoc {
+	d := tagDoc{tags: map[string][]string{}, proto: map[string]string{}}
+	var b strings.Builder
+	b.WriteString("JSIGHT 0.3\n")
+	nd := r.Intn(4)
+	var names []string
+	tagBlock := func(i int) string {
+		n := fmt.Sprintf("@t%d", i)
+		title := n
+		l := "TAG " + n
+		if r.Bool() {
+			title = fmt.Sprintf("Title %d", i)
+			l += " // " + title
+		}
+		d.declared = append(d.declared, [2]string{n, title})
+		return l + "\n"
+	}
+	for i := 0; i < nd; i++ {
+		names = append(names, fmt.Sprintf("@t%d", i))
+	}
+	// TAG declarations may come before or after their use
+	var pre, post []string
+	for i := 0; i < nd; i++ {
+		if r.Bool() {
+			pre = append(pre, "")
+		} else {
+			post = append(post, "")
+		}
+	}
+	k := 0
+	for range pre {
+		b.WriteString(tagBlock(k))
+		k++
+	}
+	pick := func() []string {
+		if r.Chance(2, 5) {
+			return nil
+		}
+		var tt []string
+		for i := 0; i < 1+r.Intn(2); i++ {
+			if len(names) > 0 && !r.Chance(1, 12) {
+				tt = append(tt, names[r.Intn(len(names))])
+			} else {
+				tt = append(tt, "@undeclared")
+				d.rejected = true
+			}
+		}
+		return tt
+	}
+	segs := []string{"cats", "dogs", "a_b", "x y", "cats"}
+	auto := func(path string) string { return catalog.VerifTagName(catalog.VerifPathTagTitle(path)) }
+	tagsLine := func(ind string, tt []string) string {
+		if tt == nil {
+			return ""
+		}
+		return ind + "Tags " + strings.Join(tt, " ") + "\n"
+	}
+	used := map[string]bool{}
+	nb := 1 + r.Intn(4)
+	for i := 0; i < nb; i++ {
+		seg := segs[r.Intn(len(segs))]
+		path := fmt.Sprintf("/%s/p%d", seg, i)
+		qpath := string(quoteSpec([]byte(path)))
+		switch r.Intn(3) {
+		case 0: // root-level method
+			own := pick()
+			b.WriteString("GET " + qpath + "\n" + tagsLine("  ", own) + "  200 any\n")
+			id := "http GET " + path
+			d.inters = append(d.inters, id)
+			d.proto[id] = "http"
+			if own != nil {
+				d.tags[id] = own
+			} else {
+				d.tags[id] = []string{auto(path)}
+			}
+		case 1: // URL with HTTP methods
+			ut := pick()
+			b.WriteString("URL " + qpath + "\n")
+			// (indentation is immaterial: a Tags line after a method would belong to that method)
+			tagsFirst := true
+			if tagsFirst {
+				b.WriteString(tagsLine("  ", ut))
+			}
+			for _, verb := range []string{"GET", "POST", "PUT"}[:1+r.Intn(3)] {
+				own := pick()
+				b.WriteString("  " + verb + "\n" + tagsLine("    ", own) + "    200 any\n")
+				id := "http " + verb + " " + path
+				d.inters = append(d.inters, id)
+				d.proto[id] = "http"
+				switch {
+				case own != nil:
+					d.tags[id] = own
+				case ut != nil:
+					d.tags[id] = ut
+				default:
+					d.tags[id] = []string{auto(path)}
+				}
+			}
+			if !tagsFirst {
+				b.WriteString(tagsLine("  ", ut))
+			}
+		default: // URL with JSON-RPC methods
+			ut := pick()
+			b.WriteString("URL " + qpath + "\n")
+			tagsFirst := r.Bool()
+			if tagsFirst {
+				b.WriteString(tagsLine("  ", ut))
+			}
+			b.WriteString("  Protocol json-rpc-2.0\n")
+			if !tagsFirst {
+				b.WriteString(tagsLine("  ", ut))
+				tagsFirst = true
+			}
+			for j := 0; j < 1+r.Intn(2); j++ {
+				own := pick()
+				m := fmt.Sprintf("m%d", j)
+				b.WriteString("  Method " + m + "\n" + tagsLine("    ", own) + "    Params\n    {}\n")
+				id := "json-rpc-2.0 " + m + " " + path
+				d.inters = append(d.inters, id)
+				d.proto[id] = "json-rpc-2.0"
+				switch {
+				case own != nil:
+					d.tags[id] = own
+				case ut != nil:
+					d.tags[id] = ut
+				default:
+					d.tags[id] = []string{auto(path)}
+				}
+			}
+			if !tagsFirst {
+				b.WriteString(tagsLine("  ", ut))
+			}
+		}
+		_ = used
+	}
+	for range post {
+		b.WriteString(tagBlock(k))
+		k++
+	}
+	d.text = []byte(b.String())
+	return d
+}
+
+// c19Docs: the tagging rule on the implementation — own Tags, else the URL's Tags, else the automatic tag;
+// undeclared names are rejected; declared titles; the tags collection and its interaction lists.
+func c19Docs(ctx *Ctx, r *Rng) {
+	n := ctx.Budget(1500, 60000)
+	var docs [][]byte
+	bad := 0
+	for i := 0; i < n && len(ctx.Violations) < 12; i++ {
+		d := genTagDoc(r)
+		docs = append(docs, d.text)
+		res := RunProject(SingleFile(d.text), false)
+		ctx.Cov.Count(d.text, len(d.inters) >= 2 && len(d.declared) >= 1)
+		in := projectInput(SingleFile(d.text))
+		in["op"] = "doc"
+		viol := func(sig, what string) {
+			bad++
+			ctx.Violate(Violation{Kind: "wrong-output", Site: "catalog.tags", What: what, Input: in, Signature: "tags:" + sig})
+		}
+		if res.Panic != "" {
+			continue
+		}
+		if d.rejected {
+			ctx.Cov.Hit("tag documents: undeclared tag named")
+			if res.Accepted() {
+				viol("undeclared-accepted", "a Tags directive names a tag that no TAG directive declares, and the document is accepted")
+			} else if !strings.Contains(res.Err.Msg, "tag not found") {
+				viol("undeclared-other-diagnostic", "undeclared tag: rejected with another diagnostic: "+res.Err.Msg)
+			}
+			continue
+		}
+		if !res.Accepted() {
+			viol("rejected", "a well-formed document about tags is rejected: "+res.Verdict())
+			continue
+		}
+		ctx.Cov.Hit("tag documents: accepted")
+		doc, _, err := ParseOJSON(res.JSON)
+		if err != nil {
+			continue
+		}
+		// expected tags collection: declared in source order, then automatic ones in order of first use
+		type exp struct {
+			title string
+			http  []string
+			rpc   []string
+		}
+		order := []string{}
+		coll := map[string]*exp{}
+		for _, t := range d.declared {
+			order = append(order, t[0])
+			coll[t[0]] = &exp{title: t[1]}
+		}
+		for _, id := range d.inters {
+			for _, tn := range d.tags[id] {
+				e, ok := coll[tn]
+				if !ok {
+					path := id[strings.LastIndex(id, " /")+1:]
+					if i := strings.Index(id, " /"); i >= 0 {
+						path = id[i+1:]
+					}
+					e = &exp{title: catalog.VerifPathTagTitle(path)}
+					coll[tn] = e
+					order = append(order, tn)
+				}
+				if d.proto[id] == "http" {
+					e.http = append(e.http, id)
+				} else {
+					e.rpc = append(e.rpc, id)
+				}
+			}
+		}
+		for _, id := range d.inters {
+			it := doc.Path("interactions", id)
+			if it == nil {
+				viol("interaction-missing", "interaction "+id+" is missing from the catalog")
+				continue
+			}
+			var got []string
+			for _, t := range it.Get("tags").Items() {
+				got = append(got, t.S)
+			}
+			if len(got) == 0 {
+				viol("untagged", "interaction "+id+" carries no tag")
+			}
+			if strings.Join(got, " ") != strings.Join(d.tags[id], " ") {
+				viol("precedence", fmt.Sprintf("interaction %s carries the tags %v, the rule gives %v", id, got, d.tags[id]))
+			}
+		}
+		if got := strings.Join(doc.Get("tags").Keys(), " "); got != strings.Join(order, " ") {
+			viol("collection", fmt.Sprintf("tags collection %q, expected %q", got, strings.Join(order, " ")))
+			continue
+		}
+		for _, tn := range order {
+			tv := doc.Path("tags", tn)
+			if tv.Get("title").Str() != coll[tn].title {
+				viol("title", fmt.Sprintf("tag %s has the title %q, expected %q", tn, tv.Get("title").Str(), coll[tn].title))
+			}
+			var http, rpc []string
+			for _, g := range tv.Get("interactionGroups").Items() {
+				for _, x := range g.Get("interactions").Items() {
+					if g.Get("protocol").Str() == "http" {
+						http = append(http, x.S)
+					} else {
+						rpc = append(rpc, x.S)
+					}
+				}
+			}
+			if strings.Join(http, "|") != strings.Join(coll[tn].http, "|") || strings.Join(rpc, "|") != strings.Join(coll[tn].rpc, "|") {
+				viol("groups", fmt.Sprintf("tag %s lists %v %v, expected %v %v", tn, http, rpc, coll[tn].http, coll[tn].rpc))
+			}
+		}
+	}
+	ctx.Cov.Component("tagging rule on documents about tags (specification on the implementation)", len(docs), bad, "")
+	buildCorrespondence(ctx, docs, nil, "documents about tags (own Tags, URL-level Tags, automatic tags, undeclared names)")
+}
